@@ -3,6 +3,7 @@ from ..runner import TestSpec, Outcome
 from ..terms import Null, Leaf, Op, show, depth, simp, walk_cond
 from .. import model, build, gen as G, spec as SP
 from ..snapshot import fingerprint, fp_diff
+from . import edits
 
 ID = "C02"
 RULE = (
@@ -399,4 +400,5 @@ def tests(tier):
         TestSpec("history", gen_history, body_history, {"quick": 400, "thorough": 40000}, tape=1024, fuzz={"thorough": 6000}),
         TestSpec("history-machine", gen_history, body_history, {"quick": 120, "thorough": 8000}, tape=1024, machine=machine_history),
         TestSpec("tree", gen_tree, body_tree, {"quick": 3000, "thorough": 400000}, tape=768, fuzz={"thorough": 40000}),
+        edits.spec("combo", 1200, 100000),
     ]
